@@ -43,7 +43,8 @@ def gen_registry(rng, n, tier):
                 cat = rng.choice(CAT_POOL + ["nope", "Zz"])
             else:
                 cat = None
-            name = rng.choice(TAG_POOL + ["Nope"])
+            # unknown names that occur *inside* a category name (the error must still point at the name)
+            name = rng.choice(TAG_POOL + ["Nope", "ext", "e", "ore", "t", "x", "lias", "d", "s", "c"])
             queries.append([cat, name, rng.randint(0, 9)])
         yield {"cats": cats, "order2": order2, "queries": queries}
 
